@@ -701,8 +701,9 @@ func casterCasCases(h *hctx) {
 		setPolicy(nil)
 		helper.Wait()
 		if !hp.fired {
-			h.line("MONITOR C08 harness: the pre-CAS hook did not fire (point %d)", pre)
-			return
+			// the Send never reached that point (it panicked in the validation that precedes it): nothing was changed
+			mut3 = false
+			h.count("cas_hook_not_reached", 1)
 		}
 		nw := x.state.Load()
 		h.line("F caster_send_cas c%d %d %d %d %d %d %d %d | %d %d %d %d", id, r, boolInt(mut2), hi2, lo2, boolInt(mut3), hi3, lo3,
